@@ -42,6 +42,10 @@ def cases(draw, max_n):
         "dtype": draw(st.sampled_from(["f", "c"])),
         "prefer_einsum": draw(st.booleans()),
         "strip": draw(st.booleans()),
+        # the sliced set may be reached indirectly: positions (into the removal
+        # list) of labels that are restored again, via restore_ind_ or via a copy
+        "restore": draw(st.lists(st.integers(0, 3), max_size=2, unique=True)) if removed and draw(st.integers(0, 2)) == 0 else [],
+        "restore_via_copy": draw(st.booleans()),
     }
 
 
@@ -50,7 +54,7 @@ def strategy(tier, sub=None):
 
 
 def budget(tier, sub=None):
-    return {"examples": 3000 if tier == "quick" else 120000, "shards": 16}
+    return {"examples": 8000 if tier == "quick" else 160000, "shards": 16}
 
 
 def run_case(spec, sub=None):
@@ -75,6 +79,21 @@ def run_case(spec, sub=None):
         if not ok:
             return Outcome([f"remove_ind_ raised {r}"], False, ["error"])
 
+    back = []
+    for k_ in spec.get("restore", []):
+        if k_ < len(removed) and removed[k_][0] not in back:
+            back.append(removed[k_][0])
+    for ix in back:
+        if spec.get("restore_via_copy"):
+            ok, r = guarded(tree.restore_ind, ix)
+            if ok:
+                tree = r
+        else:
+            ok, r = guarded(tree.restore_ind_, ix)
+        if not ok:
+            return Outcome([f"restore_ind raised {r}"], False, ["error"])
+    removed = [(ix, p) for ix, p in removed if ix not in back]
+    # (the tree keeps sliced labels sorted: output ones first)
     proj = {ix: p for ix, p in removed if p is not None}
     sliced = [ix for ix, p in removed if p is None]
     nsl = math.prod(sizes[ix] for ix in sliced)
@@ -209,6 +228,8 @@ def run_case(spec, sub=None):
     tags = sorted(cls) + [f"removed={len(removed)}", f"nslices<={min(nsl, 96) // 8 * 8 + 8}"]
     if proj:
         tags.append("projected")
+    if back:
+        tags.append("some_restored")
     if has_out:
         tags.append("output_removed")
     if any(ix not in output for ix, _ in removed):
